@@ -194,12 +194,20 @@ def run_case(model, scratch, kind, idx, seed):
         m = res[0]
         diff = X.compare_final(queries, inv0, inv1, m["state"], victims)
         oracle_failed = bool(bad)
+        # FsModel follows only absolute link targets (the model's tree has them absolutised).  When K7 re-creates a RELATIVE
+        # symlink in another directory the implementation resolves it from there and the model cannot follow: attribute the
+        # disagreement to K7 (the oracle has flagged exactly that on this case), never to anything else.
+        k7_here = any(b[0].get("kind") == "hardlink_to_symlink" for b in bad) and any(
+            inv0.get(p, ("?",))[0] == "l" and not inv0[p][3].startswith(b"/") for g in groups for p in g["files"])
+        if diff and k7_here:
+            out["viol"].append(({"kind": "hardlink_to_symlink"}, "model/implementation differ after K7 on a relative symlink: " + diff, payload, True))
+            diff = None
         if diff:
             out["viol"].append(({"kind": "model_tree_mismatch"}, "final tree of `fclones %s` differs from the model's: %s" % (s.op, diff),
                                 dict(payload, model_cmds=m["cmds"][:30], correspondence="EffectsModel.whole_run vs the binary"),
                                 oracle_failed))
         summ = X.summary(err)
-        if summ is not None and summ["n"] != m["processed"]:
+        if summ is not None and summ["n"] != m["processed"] and not k7_here:
             out["viol"].append(({"kind": "model_count_mismatch"}, "Processed %d files, model %d" % (summ["n"], m["processed"]),
                                 dict(payload, model_cmds=m["cmds"][:30]), oracle_failed))
         if res[1]["state"] != m["state"] or res[1]["processed"] != m["processed"]:
